@@ -462,7 +462,7 @@ class AttributeSet(TypedExpression):
                 for item in self.values
                 if isinstance(item, Inherit)
                 and any(
-                    (isinstance(name, Identifier) and name.name == key)
+                    (isinstance(name, Identifier) and same_attr_name(name.name, key))
                     or (
                         not isinstance(name, Identifier)
                         and hasattr(name, "value")
@@ -478,7 +478,8 @@ class AttributeSet(TypedExpression):
                 (
                     name
                     for name in inherit_match.names
-                    if isinstance(name, Identifier) and name.name == key
+                    if isinstance(name, Identifier)
+                    and same_attr_name(name.name, key)
                 ),
                 None,
             )
